@@ -438,7 +438,10 @@ def gen_raw(rng):
                        [("X-A", "1"), ("X-A", "2"), ("x-b", "3")], [("X-Hop", "1"), ("X-Hop", "1")], [("Vary", "Accept-Encoding")], [("vary", "X-Accept-Version, Origin")], [("Set-Cookie", "n=caf\xe9; Path=/"), ("Vary", "Accept")],
                        [("Set-Cookie", "a=\xfc"), ("Set-Cookie", "b=2"), ("vary", "Cookie")], [("Vary", "Accept"), ("Vary", "Accept"), ("Vary", "Origin")], [("Content-Type", "text/plain"), ("Set-Cookie", "a=1; Path=/"), ("Set-Cookie", "b=2; HttpOnly")],
                        [("X-Tag", ""), ("X-Tag", "b")], [("X-Tag", "a"), ("X-Tag", ""), ("X-Empty", "")],
-                       [("Set-Cookie2", "old=style"), ("Set-Cookie", "a=1")], [("Set-Cookie-Policy", "x"), ("X-Set-Cookie", "y=1")]])
+                       [("Set-Cookie2", "old=style"), ("Set-Cookie", "a=1")],
+                       # cookie lines spelled the way other software writes them: no blank after ';', blanks around '=', a trailing ';', no name, an upper-case attribute, a quoted value with ';'
+                       [("Set-Cookie", "a=b;Path=/;HttpOnly"), ("Set-Cookie", "c = d ; Path=/"), ("Set-Cookie", "e=f;")], [("Set-Cookie", "nameless"), ("Set-Cookie", "=v; Path=/"), ("Set-Cookie", 'q="x; y"; SECURE')],
+                       [("Set-Cookie", "a=b; Expires=Wed, 21 Oct 2015 07:28:00 GMT; Max-Age=0"), ("Set-Cookie", "a=b;  Path=/ ;  Domain=example.com")], [("Set-Cookie-Policy", "x"), ("X-Set-Cookie", "y=1")]])
     return {"app": "raw", "status": rng.choice([200, 201, 404, 418, 599, 204, 304, 205, 600, 799, 999]), "headers": hdrs, "declare_length": rng.random() < 0.3,
             "chunks": [rng.choice([b"hello", b"world", b"", b"\x00\xff"]) for _ in range(n)],
             "shape": rng.choice(["list", "tuple", "generator", "closing", "plain-iterator", "closing-list", "closing-tuple"]), "reuse_buffer": rng.random() < 0.2, "one_event": rng.random() < 0.5, "minimal_last": rng.random() < 0.3,
